@@ -180,7 +180,7 @@ const (
 	viaEntry         // yangentry.Parse(<paths>, [dir])
 )
 
-const corpusDir = "/verif/corpus/C16/sem"
+var corpusDir = lib.Root() + "/corpus/C16/sem"
 
 var modeName = []string{"Modules.Parse", "Modules.Read(path)", "AddPath + Read(name) of roots + auto-loading", "yangentry.Parse"}
 
